@@ -123,6 +123,58 @@ def run(ctx):
                 ctx.disagree('schedule(model) == send times enqueued by _repeated_enqueue_msg', case, model, ts)
     # ---- known-id window: add_outbound_message registers own id; _run_q_read's duplicate filter
     run_known_ids(ctx, nt, th)
+    # ---- back-pressure: the bounded send queue is full while a message is enqueued; nothing may be dropped
+    run_backpressure(ctx, nt)
+
+
+def run_backpressure(ctx, nt):
+    """Exactly 1 + repeat transmissions also when the (bounded) send queue is full at the time of the call:
+    the enqueue has to wait for the send loop to make room, it must not drop or truncate the schedule."""
+    for name, p in (('unicast', nt.UNICAST_REPEAT_PARAMS), ('multicast', nt.MULTICAST_REPEAT_PARAMS)):
+        th = _mk_thread()[1]          # the real queue object with its real capacity
+        q = th._send_queue
+        cap = q.maxsize
+        if cap <= 0:
+            ctx.count('backpressure:unbounded-queue')
+            continue
+        filler = object()
+        for i in range(cap - 1):
+            q.put_nowait(nt.NetworkingThread._EnqueuedMessage(-1.0 - i, filler, 0))
+        marker = object()
+        done = threading.Event()
+        err = []
+
+        def work():
+            try:
+                with mock.patch.object(nt.random, 'randint', lambda a, b: 0), \
+                        mock.patch.object(nt.random, 'randrange', lambda a, b=None: a):
+                    th._repeated_enqueue_msg(marker, p)
+            except Exception as ex:  # noqa: BLE001
+                err.append(repr(ex))
+            done.set()
+        t = threading.Thread(target=work, daemon=True)
+        t.start()
+        got = []
+        import time as _time
+        deadline = _time.time() + 20
+        _time.sleep(0.05)
+        while _time.time() < deadline and not (done.is_set() and q.empty()):
+            try:
+                item = q.get(timeout=0.05)   # the send loop makes room
+            except queue.Empty:
+                continue
+            if item.msg is marker:
+                got.append(item.repeat)
+        case = {'backpressure': name, 'queue_capacity': cap, 'params': [p.max_initial_delay_ms, p.repeat, p.min_delay_ms, p.max_delay_ms, p.upper_delay_ms]}
+        if err:
+            ctx.fail('retransmission-schedule:enqueue-raised-under-backpressure', err[0], case)
+        elif not done.is_set():
+            ctx.fail('retransmission-schedule:enqueue-blocked-forever', 'enqueue did not finish although the queue was drained', case)
+        elif len(got) != 1 + p.repeat:
+            ctx.fail('retransmission-schedule:dropped-under-backpressure',
+                     f'{len(got)} transmissions queued instead of {1 + p.repeat} when the send queue was full (repeat numbers {sorted(got)})', case)
+        ctx.case(case, nontrivial=True)
+        ctx.count('backpressure-runs')
 
 
 def run_known_ids(ctx, nt, th):
@@ -223,6 +275,12 @@ def replay(ctx, obj):
             else:
                 res = _impl_recv(nt, th2, mid)
         return res == 'dispatch'
+    if 'backpressure' in case:
+        c2 = core.Ctx('C15', 'quick', 0)
+        run_backpressure(c2, nt)
+        for f in c2.failures:
+            print('  ', f['signature'], f['detail'])
+        return bool(c2.failures)
     p = nt._UdpRepeatParams(*case['params'])
     ts = impl_schedule(nt, th, p, case['init'], case['d'])
     bad = oracle(p, case['init'], case['d'], ts)
